@@ -34,6 +34,28 @@ def run_lines(exe, lines, timeout=900):
     return outs
 
 
+def run_checked(ctx, exe, lines, timeout=900):
+    """run_lines, but a process death inside the code under test (sanitizer report, assertion) is a P-level fact about that
+    list (no answer at all): it is recorded as a violation of class 'abort' and the remaining lists go to a fresh process.
+    A death with a FATAL from the configuration stubs means this check configured something squid refuses: machinery error.
+    Returns (indices of the lines that were answered, their outputs)."""
+    idx, outs, todo = [], [], list(range(len(lines)))
+    for attempt in range(6):
+        try:
+            got = run_lines(exe, [lines[i] for i in todo], timeout=timeout)
+            return idx + todo, outs + got
+        except DriverDied as e:
+            if 'FATAL' in e.stderr and 'Sanitizer' not in e.stderr:
+                raise vlib.MachineryError(str(e))
+            # the outputs before the death are lost by run_lines; recompute them in the next round (cheap) by only skipping the bad line
+            bad = todo[e.answered]
+            why = [l for l in e.stderr.splitlines() if 'Sanitizer' in l or 'assertion failed' in l or 'runtime error' in l]
+            ctx.violation('the process died (rc=%s) while evaluating [%s]: %s' % (e.rc, lines[bad][:200], (why[-1] if why else e.stderr[-300:]).strip()),
+                          {'class': {'kind': 'abort'}, 'line': lines[bad][:3000]})
+            todo = [i for i in todo if i != bad]
+    raise vlib.MachineryError('driver keeps dying')
+
+
 class DriverDied(Exception):
     def __init__(self, answered, line, rc, stderr):
         Exception.__init__(self, 'driver answered %d lines then died (rc=%s) on: %s\n%s' % (answered, rc, line, stderr))
